@@ -233,7 +233,7 @@ private:
     void escape_string(const CharT* s,
                        std::size_t length,
                        CharT quote_char, CharT quote_escape_char,
-                       string_type& sink)
+                       string_type& sink, bool quoted = false)
     {
         const CharT* begin = s;
         const CharT* end = s + length;
@@ -244,6 +244,11 @@ private:
             {
                 sink.push_back(quote_escape_char); 
                 sink.push_back(quote_char);
+            }
+            else if (quoted && c == quote_escape_char) // differs from the quote character: inside quotes it is written escaped
+            {
+                sink.push_back(quote_escape_char); 
+                sink.push_back(quote_escape_char);
             }
             else
             {
@@ -1318,7 +1323,7 @@ private:
         {
             sink_.push_back(quote_char_);
             string_type str(alloc_);
-            escape_string(s, length, quote_char_, quote_escape_char_, str);
+            escape_string(s, length, quote_char_, quote_escape_char_, str, true);
             sink_.append(str.data(), str.length());
             sink_.push_back(quote_char_);
         }
@@ -1342,7 +1347,7 @@ private:
             quote = true;
             str.push_back(quote_char_);
         }
-        escape_string(s, length, quote_char_, quote_escape_char_, str);
+        escape_string(s, length, quote_char_, quote_escape_char_, str, quote);
         if (quote)
         {
             str.push_back(quote_char_);
